@@ -23,7 +23,7 @@ ASSUMPTIONS = ["numpy's global RNG is uniform", "a bias below the detectable eff
 NSHARDS = {"quick": 16, "thorough": 16}
 GRIDS_Q = [(2, 2), (2, 3), (3, 2), (2, 4), (4, 2), (3, 3)]
 GRIDS_T = GRIDS_Q + [(3, 4)]
-THRESHOLDS = {"quick": {"c19:draws": 100000, "c19:trace:draws": 500, "c19:trace:decisions": 20000, "c19:trace:loops-erased": 1000,
+THRESHOLDS = {"quick": {"c19:draws": 100000, "c19:trace:draws": 500,
                         "c19:consumed-stream-blocks": 10}}
 THRESHOLDS["thorough"] = {**THRESHOLDS["quick"], "c19:draws": 1000000}
 ANCHORS = ["maze_dataset.generation.generators:LatticeMazeGenerators.gen_wilson",
@@ -142,51 +142,57 @@ def _trace(ctx, n_per_shard):
 
 
 def _replay(ctx, ev, cl, R, C, case):
-    if not ev or not any(e[0] == "neigh" for e in ev) or not any(e[0] == "choice" for e in ev):
+    """replay the recorded decisions with a loop-erased-random-walk model.
+
+    Soundness: only *semantic* divergences are violations (a walk starting on a visited cell, a step whose candidates are not
+    exactly the lattice neighbours of the model's current cell, the implementation continuing from another cell than the
+    loop-erased walk, a returned tree different from the model's).  Anything that merely means the hook points are used
+    differently (missing / extra events, a choice with extra arguments, another way of picking the walk start) is
+    'not observed' and leaves the verdict to the statistical layer - Wilson's theorem holds for any rule that picks the next root
+    among the unvisited cells."""
+    if not ev or not any(e[0] == "neigh" for e in ev) or not any(e[0] == "choice" for e in ev) or ev[0][0] != "start":
         ctx.tally("c19:trace:not-observed")
         return
     g_full = Graph(ref.full_cl(R, C))
-    it = iter(ev)
+    pos = [1]
 
-    def nxt(kind):
-        e = next(it, None)
-        if e is None or e[0] != kind:
-            raise _Div(f"expected a '{kind}' event, got {e}")
+    def peek():
+        return ev[pos[0]] if pos[0] < len(ev) else None
+
+    def take():
+        e = peek()
+        pos[0] += 1
         return e
 
     try:
-        visited = set()
-        e0 = ev[0]
-        if e0[0] == "start":
-            next(it)
-            visited.add(e0[1])
-            if not g_full.in_grid(e0[1]):
-                raise _Div(f"root {e0[1]} outside the grid")
-        else:
-            ctx.tally("c19:trace:not-observed")
-            return
+        root = ev[0][1]
+        if not g_full.in_grid(root):
+            raise _Div(f"root {root} outside the grid")
+        visited = {root}
         tree = ref.empty_cl(R, C)
-        cells = ref.all_cells(R, C)
         while len(visited) < R * C:
-            unv = [c for c in cells if c not in visited]  # row-major, the order np.where yields
-            e = nxt("choice")
-            ctx.tally("c19:trace:decisions")
-            if e[2]:
-                raise _Div("walk start drawn with extra arguments (non-uniform?)")
-            if e[1] != len(unv):
-                raise _Div(f"walk start drawn among {e[1]} cells, model has {len(unv)} unvisited cells")
-            cur = unv[e[3]]
+            # whatever picks the walk start: skip its draws, the next neighbour query tells where the walk begins
+            while peek() is not None and peek()[0] == "choice":
+                take(); ctx.tally("c19:trace:decisions")
+            en = peek()
+            if en is None or en[0] != "neigh":
+                raise _Unobserved(f"no neighbour query at the start of a walk: {en}")
+            cur = en[1]
+            if cur in visited or not g_full.in_grid(cur):
+                raise _Div(f"a walk starts at {cur}, which is not an unvisited cell of the grid")
             path = [cur]
             while cur not in visited:
-                en = nxt("neigh")
+                en = take()
+                if en is None or en[0] != "neigh":
+                    raise _Unobserved(f"expected a neighbour query, got {en}")
                 if en[1] != cur:
                     raise _Div(f"implementation continues the walk from {en[1]}, the loop-erased walk is at {cur} (path {path})")
                 if sorted(en[2]) != sorted(g_full.adj[cur]) or len(en[2]) != len(set(en[2])):
-                    raise _Div(f"neighbour candidates of {cur} are {en[2]}, lattice neighbours are {sorted(g_full.adj[cur])}")
-                ec = nxt("choice")
+                    raise _Div(f"step candidates of {cur} are {en[2]}, the lattice neighbours are {sorted(g_full.adj[cur])}")
+                ec = take()
+                if ec is None or ec[0] != "choice" or ec[2] or ec[1] != len(en[2]) or ec[3] is None:
+                    raise _Unobserved(f"step not drawn by a plain choice over the {len(en[2])} candidates: {ec}")
                 ctx.tally("c19:trace:decisions")
-                if ec[2] or ec[1] != len(en[2]):
-                    raise _Div(f"step drawn among {ec[1]} options (extra args: {ec[2]}), {len(en[2])} neighbours")
                 nc = en[2][ec[3]]
                 if nc in path:
                     path = path[: path.index(nc) + 1]
@@ -197,16 +203,23 @@ def _replay(ctx, ev, cl, R, C, case):
             for a, b in zip(path[:-1], path[1:]):
                 tree[ref.slot_of(a, b)] = True
                 visited.add(a)
-        if next(it, None) is not None:
-            raise _Div("implementation made further random decisions after the model's tree was complete")
+        if peek() is not None:
+            raise _Unobserved("further events after the model's tree was complete")
         if not np.array_equal(tree, cl):
             raise _Div(f"returned tree differs from the loop-erased-walk model's tree: model {tree.astype(int).tolist()} returned {np.asarray(cl).astype(int).tolist()}")
         ctx.tally("c19:trace:held")
+    except _Unobserved as u:
+        ctx.tally("c19:trace:not-observed")
+        ctx.note(f"trace layer not applicable to this draw: {u}")
     except _Div as d:
         ctx.violation("C19/trace/not-a-loop-erased-random-walk", str(d), case)
 
 
 class _Div(Exception):
+    pass
+
+
+class _Unobserved(Exception):
     pass
 
 
